@@ -126,6 +126,8 @@ type Case struct {
 
 	Qual string `json:"qual,omitempty"`
 	Mode string `json:"mode,omitempty"`
+	// Indent is PlanOptions.Indent of the plan (violations) / of the Planner (reuse).
+	Indent string `json:"indent,omitempty"`
 }
 
 func init() {
@@ -449,9 +451,12 @@ func (r *planResult) text() string {
 	return b.String()
 }
 
-func doPlan(d string, changes []schema.Change, qual, mode string) *planResult {
+func doPlan(d string, changes []schema.Change, qual, mode, indent string) *planResult {
 	res := &planResult{}
 	var opts []migrate.PlanOption
+	if indent != "" {
+		opts = append(opts, func(o *migrate.PlanOptions) { o.Indent = indent })
+	}
 	switch qbase(qual) {
 	case "empty":
 		opts = append(opts, func(o *migrate.PlanOptions) { q := ""; o.SchemaQualifier = &q })
@@ -717,10 +722,25 @@ func runCase(a *acct, cs Case, verbose bool) {
 	if cs.Mode != "" {
 		ms = []string{cs.Mode}
 	}
+	// every plan is made without indentation and with PlanOptions.Indent = two blanks (what the CLI always
+	// passes); with a tab in the default mode.
+	type modeIndent struct{ mode, indent string }
+	var combos []modeIndent
 	for _, mode := range ms {
+		if cs.Mode != "" {
+			combos = append(combos, modeIndent{mode, cs.Indent})
+			continue
+		}
+		combos = append(combos, modeIndent{mode, ""}, modeIndent{mode, "  "})
+		if mode == "unset" {
+			combos = append(combos, modeIndent{mode, "\t"})
+		}
+	}
+	for _, mi := range combos {
+		mode, indent := mi.mode, mi.indent
 		var nilRes *planResult
 		for _, qual := range qs {
-			if strings.Contains(qual, ":") && mode != "unset" && mode != "deferred" && cs.Mode == "" {
+			if strings.Contains(qual, ":") && (mode != "unset" && mode != "deferred" || indent == "\t") && cs.Mode == "" {
 				continue // hostile qualifiers: two modes are enough (the mode only matters to the scope check)
 			}
 			changes, u, err := p.fresh()
@@ -754,7 +774,10 @@ func runCase(a *acct, cs Case, verbose bool) {
 				count("empty-changeset:"+cs.Dialect, 1)
 				continue
 			}
-			res := doPlan(cs.Dialect, changes, qual, mode)
+			res := doPlan(cs.Dialect, changes, qual, mode, indent)
+			if indent != "" {
+				count("indented-plan:"+cs.Dialect+":"+qbase(qual), 1)
+			}
 			if qual == "nil" {
 				nilRes = res
 				if cs.Qual != "" && cs.Qual != "nil" {
@@ -764,7 +787,7 @@ func runCase(a *acct, cs Case, verbose bool) {
 			stats := &refStats{Heads: map[string]int{}}
 			v := judge(cs.Dialect, qual, mode, m, u, res, nilRes, stats)
 			if verbose {
-				fmt.Printf("--- %s qualifier=%s mode=%s schemas=%v kinds=%v\n%s", cs.Dialect, qual, mode, m.Schemas, m.Kinds, res.text())
+				fmt.Printf("--- %s qualifier=%s mode=%s indent=%q schemas=%v kinds=%v\n%s", cs.Dialect, qual, mode, indent, m.Schemas, m.Kinds, res.text())
 			}
 			// evidence
 			txt := res.text()
@@ -813,7 +836,7 @@ func runCase(a *acct, cs Case, verbose bool) {
 				}
 			}
 			one := cs
-			one.Qual, one.Mode = qual, mode
+			one.Qual, one.Mode, one.Indent = qual, mode, indent
 			for _, x := range v.viol {
 				c.Violation(x.key, x.what, one, x.detail)
 				if verbose {
